@@ -45,7 +45,7 @@ def drv(NA, NB=None, elem=0, **kw):
     return d
 
 
-NT, TM, MO, MOT, CO, TRIV, INT, MA, MC, FLT = range(10)
+NT, TM, MO, MOT, CO, TRIV, INT, MA, MC, FLT, SW, PM = range(12)
 
 
 def traits_mc(pocca, pocma, pocs, ae):
@@ -105,6 +105,21 @@ def jobs_for(tier, seed):
             sc = 1 if (tr[0] or (i + rot) % 2 == 0) else 0
             J.append(job(two(2, 2, SOCCC=sc, **traits_mc(*tr)), drv(2, 2, elem=NT if i % 2 == 0 else TM, SOCCC=sc, **traits_drv(*tr)), fm, 350 if fm else 500,
                          {'two', 'tracked', 'traits'} | ({'fault'} if fm else set()), 'two N=2,2 traits ca/ma/s/ae=%d%d%d%d soccc=%d' % (tr + (sc,))))
+        # the same 16 combinations between DIFFERENT inline capacities (the library has separate overloads for a source with a
+        # smaller-or-equal and with a larger inline capacity, each with its own trait dispatch)
+        for i, tr in enumerate(ALL_TRAITS):
+            fm = 1 if (i + rot) % 4 == 2 else 0
+            na, nb = ((2, 3), (3, 2))[(i + rot) % 2]
+            J.append(job(two(na, nb, **traits_mc(*tr)), drv(na, nb, elem=TM if i % 2 == 0 else NT, **traits_drv(*tr)), fm, 250 if fm else 400,
+                         {'two', 'tracked', 'traits', 'mixedN'} | ({'fault'} if fm else set()), 'two N=%d,%d traits ca/ma/s/ae=%d%d%d%d' % ((na, nb) + tr)))
+        # an element type with nothrow moves but its own, potentially throwing, ADL swap (no temporaries): the container's swap
+        # must use it, may throw, and must not be declared / treated as noexcept
+        J.append(job(two(2, 2, **traits_mc(0, 0, 0, 0)), drv(2, 2, elem=SW), 1, 500, {'two', 'tracked', 'traits', 'fault'}, 'two N=2,2 element with a throwing ADL swap'))
+        J.append(job(two(2, 2, **traits_mc(0, 0, 1, 0)), drv(2, 2, elem=SW, POCS=1, std='c++11'), 1, 400, {'two', 'tracked', 'traits', 'fault'}, 'two N=2,2 element with a throwing ADL swap, POCS, C++11'))
+        # trivially copyable and trivially default constructible, but zero bytes are not its value-initialised state
+        # (it holds a pointer to data member): "zero the storage" shortcuts show
+        J.append(job(one(2), drv(2, elem=PM, ALLOC=0), 0, 800, {'one', 'triv', 'stdalloc'}, 'one N=2 trivial element holding a pointer to member, std::allocator'))
+        J.append(job(one(0), drv(0, elem=PM), 0, 600, {'one', 'triv'}, 'one N=0 trivial element holding a pointer to member'))
         # mixed exception specifications (nothrow move-assign + throwing move-ctor and vice versa): the internal
         # noexcept specifications must be at least as weak as what the routine really does (C18)
         J.append(job(two(2, 2, **traits_mc(0, 1, 0, 0)), drv(2, 2, elem=MA, POCMA=1), 1, 500, {'two', 'tracked', 'traits', 'fault'}, 'two N=2,2 POCMA, nothrow move-assign / throwing move-ctor'))
@@ -207,6 +222,16 @@ def jobs_for(tier, seed):
         for bits in (8, 16, 32):
             J.append(job(one(2, maxlen=4, maxcnt=2), drv(2, elem=TM, SIZET=bits), 1, None, {'one', 'tracked', 'narrow', 'fault'}, '%d-bit size_type, N=2, all single faults' % bits))
             J.append(job(two(2, 2, **traits_mc(0, 0, 0, 0)), drv(2, 2, elem=NT, SIZET=bits), 0, 6000, {'two', 'tracked', 'narrow'}, '%d-bit size_type, two containers' % bits))
+        for i, tr in enumerate(ALL_TRAITS):
+            for (na, nb) in ((2, 3), (3, 2)):
+                J.append(job(two(na, nb, **traits_mc(*tr)), drv(na, nb, elem=NT if i % 2 else TM, **traits_drv(*tr)), 1, 4000,
+                             {'two', 'fault', 'tracked', 'traits', 'mixedN'}, 'two N=%d,%d traits %d%d%d%d (all 16 between different inline capacities)' % ((na, nb) + tr)))
+        for tr in ((0, 0, 0, 0), (0, 0, 1, 0), (0, 0, 0, 1), (1, 1, 1, 0)):
+            J.append(job(two(2, 2, **traits_mc(*tr)), drv(2, 2, elem=SW, **traits_drv(*tr)), 1, 6000, {'two', 'tracked', 'traits', 'fault'}, 'two N=2,2 element with a throwing ADL swap, traits %d%d%d%d' % tr))
+        for N in (0, 2, 3):
+            for al in (0, 1):
+                J.append(job(one(N, maxlen=5, maxcnt=3), drv(N, elem=PM, ALLOC=al), 0, None, {'one', 'triv'} | ({'stdalloc'} if al == 0 else set()),
+                             'one N=%d trivial element holding a pointer to member, %s' % (N, 'std::allocator' if al == 0 else 'ledger allocator')))
         for i, tr in enumerate(ALL_TRAITS):
             na, nb = ((2, 2), (0, 2), (3, 2), (2, 3))[i % 4]
             J.append(job(two(na, nb, **traits_mc(*tr)), drv(na, nb, elem=(TRIV, INT)[i % 2], **traits_drv(*tr)), 0, 6000,
